@@ -64,6 +64,10 @@ def tasks(tier):
     for n in range(1, b["D_len"] + 1):
         for first in UNIT_KINDS:
             out.append(("D", first, n, b["D_k"]))
+    from mc import corpus
+
+    for pid in sorted(corpus.corpus()):
+        out.append(("E", pid))
     return out
 
 
@@ -281,8 +285,14 @@ def cases_D(task):
             yield ("D/%s/%s" % ("-".join(seq), ".".join(map(str, vec))), vec, prog, stats)
 
 
+def cases_E(task):
+    from mc import corpus
+
+    yield ("E/%s/" % task[1], (), corpus.corpus()[task[1]], {"decisions": 0})
+
+
 def cases(task):
-    return {"A": cases_A, "B": cases_B, "C": cases_C, "S": cases_S, "D": cases_D}[task[0]](task)
+    return {"A": cases_A, "B": cases_B, "C": cases_C, "S": cases_S, "D": cases_D, "E": cases_E}[task[0]](task)
 
 
 def with_comments(prog):
